@@ -473,10 +473,10 @@ read_chunk()
         state_ = ReadState::ErrorChunkTooBig;
         return;
     }
-    assert(header.compression == 0);
-    assert(header.version == 0);
     auto chunk_reader = stream_.make_decoder(header.payload_length);
-    if (header.version != 0) {
+    // a chunk of an unknown version or with a compression scheme (none is
+    // defined so far) cannot be interpreted: fatal if mandatory, skipped otherwise
+    if (header.version != 0 || header.compression != 0) {
         if (header.isMandatory()) {
             state_ = ReadState::ErrorUnsupportedChunkVersion;
             return;
